@@ -4,6 +4,7 @@ import NirVerif.Model.FS
 import NirVerif.Generated.LifExactFloat
 import NirVerif.Generated.CubaRefFloat
 import NirVerif.Model.EventLoop
+import NirVerif.Model.CubaRun
 /-
   Line-protocol driver: one JSON request per line on stdin, one JSON reply per line on
   stdout.  Imports Model / Spec / Generated only (no Mathlib), so it builds as a native exe.
@@ -149,6 +150,17 @@ def handle (j : Json) : Except String Json := do
           ("times", .arr (s.recs.map fun x => Json.str (floatToHex x.1)).toArray),
           ("voltages", .arr (s.recs.map fun x => Json.str (floatToHex x.2)).toArray),
           ("v", .str (floatToHex s.v))])
+  | "cuba_run" =>
+    -- run_cuba_reference_model for one neuron: the hand-written fold around the generated Float kernel
+    let a ← (← (← j.getObjVal? "args").getArr?).toList.mapM fun x => do floatOfHex (← x.getStr?)
+    let xs ← (← (← j.getObjVal? "xs").getArr?).toList.mapM fun x => do floatOfHex (← x.getStr?)
+    match a with
+    | [dt, ts, tm, r, vl, vt, w] =>
+      let out := CubaRun.run (Generated.CubaFloat.cubaForward dt ts tm r vl vt w) (0.0 : Float) xs
+      pure (Json.mkObj [("z", .arr (out.map fun o => Json.str (floatToHex o.1)).toArray),
+        ("v", .arr (out.map fun o => Json.str (floatToHex o.2.1)).toArray),
+        ("I", .arr (out.map fun o => Json.str (floatToHex o.2.2)).toArray)])
+    | _ => throw "cuba_run arity"
   | "cuba_kernel" =>
     let a ← (← (← j.getObjVal? "args").getArr?).toList.mapM fun x => do floatOfHex (← x.getStr?)
     match a with
